@@ -402,6 +402,40 @@ func runC03(c *Ctx) {
 			c.Fail(key, rGrow, "the spawn is not confined to the default outcome (it would run even when an idle worker took the tick)", c.at(g.at))
 			continue
 		}
+		// the refused offer always starts a worker: from the non-blocking offer, leaving aside the
+		// "sent" and "stopped" outcomes, the blocking offer is unreachable without passing a spawn
+		// (a spawn inside a loop that may run zero times starts nobody: with no worker at all the
+		// blocking send then waits forever)
+		{
+			firstOf := func(b *ssa.BasicBlock) ssa.Instruction {
+				if b == nil || len(b.Instrs) == 0 {
+					return nil
+				}
+				return b.Instrs[0]
+			}
+			sentI, stopI := firstOf(nb.Sent), firstOf(nb.Stopped)
+			refused := explore(nb.At, false, func(i ssa.Instruction) bool {
+				if i == sentI || i == stopI {
+					return true
+				}
+				for _, gg := range goLoop {
+					if i == gg.at {
+						return true
+					}
+				}
+				return false
+			})
+			starved := false
+			for _, o := range a.Offers {
+				if o.Blocking && refused[o.At] {
+					starved = true
+				}
+			}
+			if starved {
+				c.Fail(key, rGrow, "after a refused non-blocking offer the loop can reach the blocking send without having started a worker (e.g. the spawn sits in a loop that may run zero times): with no workers running the attack blocks forever", c.at(nb.At))
+				continue
+			}
+		}
 		// continues to a blocking offer without passing Pace
 		set := explore(g.at, false, func(i ssa.Instruction) bool {
 			for _, o := range a.Offers {
